@@ -81,7 +81,8 @@ __CPROVER_ensures(g_nemplace == __CPROVER_old(g_nemplace) + (g_node == 0 ? 1 : 0
 __CPROVER_assigns(g_nemplace)
 __CPROVER_assigns(g_node == 0: __CPROVER_object_whole(g_new));
 
-void umap_erase_it(umap* m, umap_iter it)
+/* (returns the iterator following the erased element: another element or end() -- which one depends on the hash table's order) */
+umap_iter umap_erase_it(umap* m, umap_iter it)
 __CPROVER_requires(it != 0 && it == g_node)            /* dereferenceable iterator into *this */
 __CPROVER_ensures(g_nerase == __CPROVER_old(g_nerase) + 1 && g_erased == it)
 __CPROVER_assigns(g_nerase, g_erased, __CPROVER_object_whole(it));
@@ -190,11 +191,13 @@ static inline void umap_destroy_node(umap_iter it)
   it->used = 0;
 }
 
-static inline void umap_erase_it(umap* m, umap_iter it)
+_Bool nondet_umap_next_is_end(void);
+static inline umap_iter umap_erase_it(umap* m, umap_iter it)
 {
   __CPROVER_assert(it != 0 && it >= m->nodes && it < m->nodes + C12_NSLOT && it->used,
                    "unordered_map::erase(iterator): the iterator refers to a live element of this map (no double free)");
   umap_destroy_node(it);
+  return nondet_umap_next_is_end() ? umap_end(m) : m->nodes;     /* the following element or end(): depends on the table order */
 }
 
 static inline size_t umap_erase_key(umap* m, K k)
